@@ -28,6 +28,8 @@ def gen_cases(ctx, scale=1.0):
     for c in cases:
         c['cb'] = {'table': {}}
         c['interval'] = rng.choice([0, 0, 0.125, 1.0, 1000.0])
+        # the same number as Decimal / Fraction / int / bool: the gate compares, it must not need arithmetic on the interval
+        c['interval_type'] = rng.choice(['float', 'float', 'decimal', 'fraction', 'int', 'bool'])
     return cases
 
 
@@ -55,6 +57,8 @@ def evaluate(ctx, drv, cases, optimized=False):
     for i, ((c, obs), rep) in enumerate(zip(flat, replies)):
         case = {k: c[k] for k in ('mode', 'L', 'sizes', 'paths', 'cseed', 'threads', 'disk', 'flips', 'cb',
                                   'interval', 'strategy', 'max_steps')}
+        if c.get('interval_type', 'float') != 'float':
+            case['interval_type'] = c['interval_type']
         if c.get('patches'):
             case['patches'] = c['patches']
         if c.get('late'):
